@@ -843,7 +843,13 @@ fn gen_file_program(rng: &mut Rng, exists: &mut BTreeSet<String>) -> Scenario {
                 } else {
                     *rng.pick(&ins)
                 };
-                if rng.chance(1, 2) {
+                if rng.chance(1, 6) {
+                    // a numeric target (defined when the field is a decimal INTEGER)
+                    main.push(ids.st(StmtKind::InputFile {
+                        handle,
+                        vars: vec!["I1%".into()],
+                    }));
+                } else if rng.chance(1, 2) {
                     main.push(ids.st(StmtKind::LineInputFile {
                         handle,
                         var: "S1$".into(),
